@@ -395,9 +395,8 @@ func (i *insertExecutor) parsePkValuesFromStatement(insertStmt *ast.InsertStmt, 
 				} else {
 					pkValues = append(pkValues, pkValue)
 				}
-				if _, ok := pkValuesMap[pkKey]; !ok {
-					pkValuesMap[pkKey] = pkValues
-				}
+				// append may have moved the slice: store it for every row, not only the first
+				pkValuesMap[pkKey] = pkValues
 			}
 		}
 	} else {
